@@ -17,6 +17,7 @@ type World struct {
 	FuncByKey map[string]*ssa.Function
 	PkgShort  map[string]string // package path -> short name used in keys
 	Tables    map[*ssa.Global]*tableInfo
+	RegTabs   map[*ssa.Global]*regTable
 }
 
 var pkgShortNames = map[string]string{
@@ -118,7 +119,7 @@ func (w *World) Generate(key string) (*FuncVC, error) {
 		names: map[*ssa.Alloc]string{}, usedAxioms: map[string]bool{}, rangeIters: map[*ssa.Range]string{},
 		localNames: map[string]*ssa.Alloc{}, stringLits: map[string]Term{},
 		localSlices: map[ssa.Value]localSlice{}, castChecked: map[*ssa.Range]bool{}, mapKeySorts: map[string]string{},
-		usedSpecs: map[string]bool{}, forceAxioms: map[string]bool{}, noAxioms: map[string]bool{}, tablesUsed: map[string]bool{}}
+		usedSpecs: map[string]bool{}, forceAxioms: map[string]bool{}, noAxioms: map[string]bool{}, tablesUsed: map[string]bool{}, regTabsUsed: map[string]bool{}}
 	fv.mode = fc.Opts["mode"]
 	if _, ok := fc.Opts["abstract"]; ok {
 		fv.abstractBSeq = true
